@@ -273,7 +273,20 @@ impl ClientLoop {
             self.decode,
         )?;
 
-        io.write(bytes, self.decode.physical).await?;
+        // a transport that stops taking bytes (a peer that no longer reads) must not block the
+        // task - and with it every queued request, disable and shutdown - beyond the timeout
+        let write_deadline = Instant::now().checked_add(request.timeout);
+        tokio::select! {
+            // the write is always tried first, whatever the timeout
+            biased;
+            res = io.write(bytes, self.decode.physical) => {
+                res?
+            }
+            _ = sleep_until(write_deadline) => {
+                // part of the frame may be out: the connection cannot be used any further
+                return Err(RequestError::Io(std::io::ErrorKind::TimedOut));
+            }
+        }
 
         let deadline = Instant::now().checked_add(request.timeout);
 
